@@ -401,6 +401,27 @@ class SimpleJSONRPCDispatcher(SimpleXMLRPCDispatcher, object):
             _logger.error("Error preparing JSON-RPC result: %s", fault)
             return fault.dump()
 
+    @staticmethod
+    def _method_exception_fault(config):
+        """
+        Prepares the Fault describing the exception currently handled, raised
+        by a called method
+
+        :param config: Request-specific configuration
+        :return: A Fault object (internal error)
+        """
+        err_lines = traceback.format_exception(*sys.exc_info())
+        trace_string = "{0} | {1}".format(
+            err_lines[-2].splitlines()[0].strip(), err_lines[-1]
+        )
+        fault = Fault(
+            -32603,
+            "Server error: {0}".format(trace_string),
+            config=config,
+        )
+        _logger.exception("Server-side exception: %s", fault)
+        return fault
+
     def _dispatch(self, method, params, config=None):
         """
         Default method resolver and caller
@@ -440,7 +461,12 @@ class SimpleJSONRPCDispatcher(SimpleXMLRPCDispatcher, object):
                 else:
                     return func(**params)
             except TypeError as ex:
-                # Maybe the parameters are wrong
+                if sys.exc_info()[2].tb_next is not None:
+                    # Raised inside the method, not by the call itself:
+                    # this is a method exception
+                    return self._method_exception_fault(config)
+
+                # The parameters are wrong
                 fault = Fault(
                     -32602, "Invalid parameters: {0}".format(ex), config=config
                 )
@@ -448,17 +474,7 @@ class SimpleJSONRPCDispatcher(SimpleXMLRPCDispatcher, object):
                 return fault
             except:
                 # Method exception
-                err_lines = traceback.format_exception(*sys.exc_info())
-                trace_string = "{0} | {1}".format(
-                    err_lines[-2].splitlines()[0].strip(), err_lines[-1]
-                )
-                fault = Fault(
-                    -32603,
-                    "Server error: {0}".format(trace_string),
-                    config=config,
-                )
-                _logger.exception("Server-side exception: %s", fault)
-                return fault
+                return self._method_exception_fault(config)
         else:
             # Unknown method
             fault = Fault(
